@@ -14,6 +14,7 @@ RULE = ("selection/yield histories over agent-id alphabets with order traps (sha
         "{0,1,aging-1,aging,3*aging,-aging,big} (backwards included), both policies, rotation on/off per tick; a stream of "
         "tick-only histories from init_scheduler_state (bound monitors apply), a mixed stream of free next/yield/rot ops, "
         "and a malformed stream (hand-made states with missing keys / counters above the allowance, bad config values); "
+        "stage HISTORIES: 2-4 real t1_propagate / t2_semantic / run_turn calls on one world in one process with the process-global stage caches left warm, slice budgets absent/loose/tight/0 per call, caches on and off, each call checked against its clamp and against the same call with the stage cache off; "
         "exhaustive DFS over all clock-advance histories of the real code for small scopes, compared with the model by "
         "leaf count, rolling hash of every (agent, reason) and maximal wait; budget/consumed maps boundary-biased around "
         "equality; one seeded PRNG per component; a case is non-trivial when it hits a non-default branch tag; distinct "
